@@ -234,6 +234,25 @@ def test_interval(repo, f, expr):
   `X is not None and helper(...)` / `(X is not None) and (...)`. Returns (Interval, guards)
   where guards are the other conjuncts."""
   e, neg = au.strip_not(expr)
+  if (isinstance(e, ast.BoolOp) and isinstance(e.op, ast.Or)) or (isinstance(e, ast.BinOp) and isinstance(e.op, ast.BitOr)
+                                                                 and not isinstance(e.left, ast.Compare)):
+    # De Morgan: `X is None or not reject(v)`  ==  not (`X is not None and reject(v)`)
+    vals = list(e.values) if isinstance(e, ast.BoolOp) else [e.left, e.right]
+    if any(isinstance(v, ast.Compare) and len(v.ops) == 1 and isinstance(v.ops[0], (ast.Is, ast.IsNot)) for v in vals):
+      def negate(v):
+        if isinstance(v, ast.Compare) and len(v.ops) == 1 and isinstance(v.ops[0], ast.Is):
+          return ast.Compare(left=v.left, ops=[ast.IsNot()], comparators=v.comparators)
+        if isinstance(v, ast.Compare) and len(v.ops) == 1 and isinstance(v.ops[0], ast.IsNot):
+          return ast.Compare(left=v.left, ops=[ast.Is()], comparators=v.comparators)
+        if isinstance(v, ast.UnaryOp) and isinstance(v.op, ast.Not):
+          return v.operand
+        return ast.UnaryOp(op=ast.Not(), operand=v)
+      dual = ast.BoolOp(op=ast.And(), values=[negate(v) for v in vals])
+      iv, others = test_interval(repo, f, dual)
+      if iv is not None:
+        if not neg:
+          iv.accept_when = not iv.accept_when
+        return iv, others
   conjuncts = [e]
   if isinstance(e, ast.BoolOp) and isinstance(e.op, ast.And):
     conjuncts = list(e.values)
